@@ -524,8 +524,9 @@ namespace occa {
       push();
 
       // Find delimiter
+      // (there is none if the line or the source ends before the opening parenthesis)
       skipTo("(\n");
-      if (*fp.start == '\n') {
+      if (*fp.start != '(') {
         pop();
         popAndRewind();
         return;
